@@ -204,16 +204,21 @@ class ConnectionPool(object):
 
         _logger.debug('Check out %s', key)
 
-        connection = yield from host_pool.acquire()
+        try:
+            connection = yield from host_pool.acquire()
+        finally:
+            # Also when the wait failed or was cancelled, otherwise the host
+            # pool is kept forever. No suspension point here, so the map can
+            # be updated without taking the lock.
+            if key in self._host_pool_waiters:
+                self._host_pool_waiters[key] -= 1
+
         connection.key = key
 
         # TODO: Verify this assert is always true
         # assert host_pool.count() <= host_pool.max_connections
         # assert key in self._host_pools
         # assert self._host_pools[key] == host_pool
-
-        with (yield from self._host_pools_lock):
-            self._host_pool_waiters[key] -= 1
 
         return connection
 
